@@ -337,6 +337,7 @@ func domUpd(r *gen.Rng, n int, thorough bool, o *Out) {
 		for k := 0; k < 4; k++ {
 			pool = append(pool, rootValue(c, cr.Fork(uint64(100+k)), rootRef, 3, vopts))
 		}
+		lastCfg := map[string]interface{}{}
 		for s := 0; s < steps; s++ {
 			if degrade && s >= 1 && cr.Chance(30) {
 				v := versionLabels[cr.Intn(nv)]
@@ -376,8 +377,20 @@ func domUpd(r *gen.Rng, n int, thorough bool, o *Out) {
 				if !vopts.Plain && cr.Chance(25) {
 					cfg = swapEntryForNull(cr, cfg)
 				}
-				rec = append(rec, updStep{kind: "apply", mgr: mgr, ver: ver, force: force, obj: cfg, plain: vopts.Plain})
-				res := stepApply(o, c, up, ig, st, tr, mgr, ver, force, cfg, vopts.Plain, noop)
+				// the manager's previous configuration with a null entry added, or with the key of a null
+				// entry renamed: the object changes (one null entry goes, another comes) while both maps keep
+				// their size (own stream: the other draws stay as they were)
+				stepPlain := vopts.Plain
+				if pr := cr.Fork(uint64(8_800 + s)); pr.Chance(12) {
+					if prev, ok := lastCfg[mgr]; ok {
+						cfg = nullEntryTwin(pr, prev)
+						stepPlain = false // explicit nulls: outside the plain stream (reading R4)
+						o.Tag("upd:null-entry-twin")
+					}
+				}
+				lastCfg[mgr] = cfg
+				rec = append(rec, updStep{kind: "apply", mgr: mgr, ver: ver, force: force, obj: cfg, plain: stepPlain})
+				res := stepApply(o, c, up, ig, st, tr, mgr, ver, force, cfg, stepPlain, noop)
 				if strings.HasPrefix(res, "ok") {
 					emitSync(o, st)
 				}
@@ -604,6 +617,51 @@ func swapEntryForNull(r *gen.Rng, v interface{}) interface{} {
 			break
 		}
 	}
+	return out
+}
+
+// nullEntryTwin: a copy of v in which, in one map (at any depth), the key of an entry holding null is
+// renamed to a name not present (declared names of the generated schemas and free keys); when there is
+// no such entry yet, one entry's value is replaced by null (so that a later twin can rename it).
+func nullEntryTwin(r *gen.Rng, v interface{}) interface{} {
+	m, ok := v.(map[string]interface{})
+	if !ok || len(m) == 0 {
+		return v
+	}
+	keys := make([]string, 0, len(m))
+	for k := range m {
+		keys = append(keys, k)
+	}
+	sort.Strings(keys)
+	out := map[string]interface{}{}
+	for k, x := range m {
+		out[k] = x
+	}
+	var nulls, maps []string
+	for _, k := range keys {
+		if m[k] == nil {
+			nulls = append(nulls, k)
+		} else if sub, isMap := m[k].(map[string]interface{}); isMap && len(sub) > 0 {
+			maps = append(maps, k)
+		}
+	}
+	if len(nulls) > 0 && (len(maps) == 0 || r.Chance(70)) {
+		k := gen.Pick(r, nulls)
+		for _, cand := range gen.Shuffle(r, []string{"a", "b", "c", "d", "e", "x", "y", "value", "known", "v", "next", "pt", "f1", "f4", "f9"}) {
+			if _, has := m[cand]; !has {
+				delete(out, k)
+				out[cand] = nil
+				return out
+			}
+		}
+		return out
+	}
+	if len(maps) > 0 && r.Chance(70) {
+		k := gen.Pick(r, maps)
+		out[k] = nullEntryTwin(r, m[k])
+		return out
+	}
+	out[gen.Pick(r, keys)] = nil
 	return out
 }
 
